@@ -6,6 +6,7 @@ use crate::engine::Ctx;
 
 pub mod c01;
 pub mod c04;
+pub mod c06;
 pub mod c11;
 pub mod c13;
 pub mod c15;
@@ -55,6 +56,7 @@ macro_rules! simple_checks {
 
 simple_checks! {
     "C11" => c11,
+    "C06" => c06,
     "C13" => c13,
     "C15" => c15,
     "C20" => c20,
